@@ -45,6 +45,7 @@ func main() {
 			}
 		}
 		o := NewOut(*out, "replay")
+		wdWatch(o, *out, "replay", *seed)
 		replayAny(o, lines)
 		o.Close(*out, "replay", *seed)
 		return
